@@ -855,7 +855,7 @@ def write_ev(prop, tier, seed, stage, sel, tasks, results, known, violations, un
                         'examples': r.get('samples', [])[:3]})
     ev = {
         'property_id': prop, 'tier': tier, 'seed': seed,
-        'level': 'proof',
+        'level': 'proof' if obligations > 0 else 'other',
         'coverage': {
             'obligations': obligations, 'discharged': discharged,
             'checker_cmd': 'python3 tools/vf.py check %s --tier %s  (per obligation: goto-cc; goto-instrument --dfcc <entry> --enforce-contract <f> [--replace-call-with-contract <g>]* [--apply-loop-contracts]; cbmc %s)' % (prop, tier, ' '.join(DEFAULT_CHECKS)),
